@@ -326,6 +326,8 @@ pub fn check(o: &CheckOpts) -> i32 {
             "refusals_not_demanded_by_any_statement": cov.soft_refusals.iter().take(40).collect::<BTreeMap<_, _>>(),
             "fault_kinds_fired": cov.faults,
             "rare_condition_probes": cov.probes,
+            "case_cells_hit": cov.cells.len(),
+            "case_cells": cells_for(&o.prop, &cov.cells),
             "distinct_abstract_states": cov.states.len(),
             "distinct_transitions": cov.transitions.len(),
             "state_measure": "hash of the multiset of order shapes (side, class, remaining bucket, lot alignment, fee state) plus fee configuration; transition = (request kind, state before, state after)",
@@ -366,6 +368,24 @@ pub fn check(o: &CheckOpts) -> i32 {
         reported_known.len()
     );
     exit
+}
+
+/// the coverage cells that belong to the property being checked (request kinds it judges)
+fn cells_for(prop: &str, cells: &BTreeMap<String, u64>) -> BTreeMap<String, u64> {
+    let kinds: &[&str] = match prop {
+        "C02" | "C03" => &["execute_match"],
+        "C04" => &["cancel_ask", "cancel_bid", "expire_ask", "expire_bid", "reject_ask", "reject_bid"],
+        "C07" => &["create_ask", "create_bid"],
+        "C08" => &["approve_ask", "reject_ask", "expire_ask", "cancel_ask"],
+        "C09" => &["create_bid", "execute_match", "reject_bid", "cancel_bid", "expire_bid"],
+        "C12" => &["modify_contract"],
+        _ => &[],
+    };
+    cells
+        .iter()
+        .filter(|(k, _)| kinds.iter().any(|x| k.starts_with(&format!("{}:", x))))
+        .map(|(k, v)| (k.clone(), *v))
+        .collect()
 }
 
 pub fn rule_text(p: &str) -> &'static str {
